@@ -1,11 +1,11 @@
 package main
 
 import (
-	"os"
-	"go/types"
 	"fmt"
 	"go/ast"
 	"go/token"
+	"go/types"
+	"os"
 	"strings"
 )
 
@@ -442,9 +442,23 @@ func runC10(c *Ctx) {
 		c.Failf("ListKeys: ring walk loop not found")
 	}
 	nself, nother := 0, 0
+	// the node list: what the walk appends to; an append to it after the loop (reached only
+	// through the loop's break) is a site of the walk as well
+	var nodesVar *types.Var
 	for _, call := range lk.Calls(false, func(call *ast.CallExpr) bool {
 		id, ok := call.Fun.(*ast.Ident)
 		return ok && id.Name == "append" && containsNode(loop.Body, call)
+	}) {
+		if nodesVar == nil {
+			nodesVar = lk.varOf(call.Args[0])
+		}
+	}
+	for _, call := range lk.Calls(false, func(call *ast.CallExpr) bool {
+		id, ok := call.Fun.(*ast.Ident)
+		if !ok || id.Name != "append" {
+			return false
+		}
+		return containsNode(loop.Body, call) || call.Pos() > loop.End() && nodesVar != nil && len(call.Args) == 2 && lk.varOf(call.Args[0]) == nodesVar
 	}) {
 		fs := lk.FactsAt(call)
 		backAtSelf := fs.Cmp(func(e, tag ast.Expr, truth bool, fa *Fact) bool {
